@@ -187,7 +187,7 @@ def cfg_ok(store):
 def stored_cfg(store):
     """The options of the collection's versioned .xandikos file."""
     return (empty("dict[str,str]") if store.ghost_cfg is None
-            else cfg_parse(b"".join(blob_of(store.ghost_cfg.encode("ascii")).chunked).decode("utf-8")))
+            else cfg_parse(blob_bytes(store.ghost_cfg.encode("ascii")).decode("utf-8")))
 
 
 @contract("xandikos.store.git.GitStore.config", params={"self": "obj:xandikos.store.git.GitStore"},
